@@ -44,4 +44,10 @@ CLAIMED['C17'] = {
   'technique': 'Coq proofs (induction on expressions, table simulation) + translator-regenerated operator table + exhaustive depth-3 differential correspondence',
 }
 
+CLAIMED['C15'] = {
+  'text': 'Models: Jsmn.v (the jsmn tokenizer as compiled: non-strict, no parent links, explicit NOMEM/INVAL/PART/Oob outcomes), Json.v (jsonEscape/jsonUnescape over tables regenerated from Data.cpp, fromJSON with its token-budget retry loop, sentinel and stack-based builder with every array/stack access explicit, byte-exact toJSON, Event<->Data) with a five-switch defect record. 22 theorems, unbounded: unescape(escape s) = s for every byte string; every escaped string tokenizes; jsmn never writes outside its tokens; from_json total (no loop) and Oob-free for every byte string (repaired variant), refuted with witnesses for the pinned one; from_json(to_json d) = d through trim, retry loop, tokenizer and builder for every canonical NUL-free container value; event round trip. Correspondence: all 256 bytes x 3 probes, systematic and random trees (text compared exactly), exhaustive short malformed texts and token-budget sweeps, events; predicted-Oob inputs in child processes; thorough adds an ASan build and a vm_compute cross-check of the extracted model.',
+  'note': 'Trusted: Coq kernel (closed under the global context), extraction, Jsmn.v/Json.v as hand models, the two escape-table translators (cross-checked by the 256-byte probe), vd_json.cpp, classic-locale isspace. Outside the model: Data::node/binary, heap contents after an out-of-bounds access, malloc failure. Two known findings (top-level scalar, NUL byte).',
+  'technique': 'Coq proofs (induction on byte strings / Data trees, tokenizer invariants) + regenerated escape tables + differential correspondence incl. malformed stream and sanitizer build',
+}
+
 NOT_APPLICABLE = {p: _PENDING for p in ['C%02d' % i for i in range(1, 21)] if p not in CLAIMED}
